@@ -1282,3 +1282,11 @@ VP("C12-R2C-mut-mark-only", "C12", "swapped _set_default_value marks but stores 
    "        self._default_value_keys.add(key)\n        self._data[key] = value", "        self._default_value_keys.add(key)\n        if value is not None:\n            self._data[key] = value")
 VP("C12-R2C-mut-ifexp-shares-default", "C12", "conditional-expression default shares the declared list when untyped", "C12-R2C", LIST,
    "            default = ListProxy(cfg, self, default) if self.field else list(default)", "            default = ListProxy(cfg, self, default) if self.field else default")
+VP("C13-R2C-mut-dynamic-on-schema", "C13", "extracted _add_dynamic_field records the field on the schema", "C13-R2C", CORE,
+   "        dynamic_field = self._fields[key] = AnyField()", "        dynamic_field = self._schema._fields[key] = AnyField()")
+VP("C13-R2C-mut-dict-default-shared", "C13", "guard-clause DictField default: raw dict stored for untyped fields", "C13-R2C", DICT,
+   "            value = dict(declared)", "            value = declared")
+VP("C13-R2C-mut-list-default-shared", "C13", "extracted _default_for returns the declared list itself", "C13-R2C", LIST,
+   "            return list(declared)", "            return declared")
+VP("C13-R2C-mut-guard-inverted", "C13", "extracted _default_for: guard inverted (lists returned raw)", "C13-R2C", LIST,
+   "        if not isinstance(declared, list):\n            return declared", "        if isinstance(declared, list):\n            return declared")
